@@ -128,6 +128,32 @@ example : Setup exA id exC :=
   { wf := by decide, rows := by decide, cols := by decide, ds := rfl, np := by decide,
     psize := fun _ h => h, pd := fun _ _ => rfl }
 
+/-- … and so does every rank-local diagonal scaling `x = M .* rhs` (what `relaxation::spai0::apply` /
+`as_preconditioner` does), each rank using its part of `M`: the hypothesis `Setup.pd` is satisfiable by a
+preconditioner that is not the identity. -/
+theorem setup_diag_precond {K : Type} [CommRing K] [DecidableEq K] (A : CRS K) (p : List Nat) (M : Vec K) (hA : A.WF)
+    (hr : p.sum = A.nrows) (hc : p.sum = A.ncols) (hnp : 0 < p.length) (hM : M.size = p.sum) (conj : K → K) :
+    Setup A (fun g => vmul 1 M g 0 #[])
+      { Ds := split A p p, part := p, conj := conj,
+        Pd := fun gs => (List.range p.length).map (fun r => vmul 1 (vecPart M p r) (gs.getD r #[]) 0 #[]) } :=
+  { wf := hA, rows := hr, cols := hc, ds := rfl, np := hnp,
+    psize := fun g hg => (diag_precond_refines M p hM g hg).2,
+    pd := fun g hg => (diag_precond_refines M p hM g hg).1 }
+
+/-- the CG refinement instantiated on `exA` (3 ranks, the middle one empty): all hypotheses are dischargeable -/
+example : ∃ ds', drun exC 3 (Lockstep.CG.prog ⟨3, 0, 0, false⟩ id 0)
+      (distribute exC.part (Lockstep.CG.initState (Solver.CG.Work.fresh 3) #[1, 2, 3] #[0, 0, 0])) = some ds' ∧
+    ds'.vec Lockstep.CG.vX
+      = splitVec (Solver.CG.run ⟨3, 0, 0, false⟩ (innerProductSerial id) id 0 exA id (Solver.CG.Work.fresh 3)
+          #[1, 2, 3] #[0, 0, 0]).x exC.part :=
+  (lockstep_cg_refines_serial exA id exC
+    { wf := by decide, rows := by decide, cols := by decide, ds := rfl, np := by decide,
+      psize := fun _ h => h, pd := fun _ _ => rfl }
+    ⟨3, 0, 0, false⟩ id 0 (Solver.CG.Work.fresh 3) #[1, 2, 3] #[0, 0, 0] (by decide) (by decide)
+    (by simp [Solver.CG.Work.fresh]; decide) (by simp [Solver.CG.Work.fresh]; decide)
+    (by simp [Solver.CG.Work.fresh]; decide) (by simp [Solver.CG.Work.fresh]; decide)).imp
+    (fun _ h => ⟨h.1, h.2.1⟩)
+
 /-- ranks 1 and 3 are empty: the active ranks are 0, 2, 4 and rank 4 reports to rank 0 -/
 example : activeRanks [2, 0, 3, 0, 1] = [0, 2, 4] := by decide
 example : 4 ∈ activeRanks [2, 0, 3, 0, 1] := by decide
